@@ -418,7 +418,7 @@ def _isinst(interp, st, v, t, node):
     if name == "bool":
         return isinstance(v, bool) or (is_sym(v) and v.sort() == z3.BoolSort())
     if name == "str":
-        return isinstance(v, str) or (hasattr(M, "is_tok") and M.is_tok(v))
+        return isinstance(v, str) or (is_sym(v) and v.sort() == z3.StringSort())
     if name == "list":
         return isinstance(v, (list, SymList, GList))
     if name == "tuple":
@@ -1948,6 +1948,22 @@ LIBFUNCS.update({
     "muutils.misc.shorten_numerical_to_str": lib_uf("shorten_numerical_to_str", ["int"], "str"),
 })
 METHODS[("scalar", "removeprefix")] = m_str_removeprefix
+
+
+def lib_unknown(name):
+    """a library function whose value is never looked at: every call returns a fresh unknown object (nothing is assumed about it, not even purity)"""
+
+    def fn(interp, st, args, kwargs, node):
+        I = _I()
+        return z3.Const(V.fresh_name("lib." + name), I.OBJ_SORT)
+
+    return fn
+
+
+LIBFUNCS.update({
+    "muutils.json_serialize.util.safe_getsource": lib_unknown("safe_getsource"),
+    "muutils.json_serialize.util.string_as_lines": lib_unknown("string_as_lines"),
+})
 
 
 def m_str_join(interp, st, base, base_node, args, kwargs, node):
